@@ -8,5 +8,5 @@ if ! (cd "$scratch" && patch -p1 -s --no-backup-if-mismatch < /verif/seeded/$id/
 VERIF_REPO="$scratch" VERIF_SELFTEST=1 timeout 1500 /verif/bin/vcgen check "$prop" --tier quick > /verif/work/seedrun_$id.log 2>&1
 n=$(grep -c '^VIOLATION' /verif/work/seedrun_$id.log)
 grep -q "^$prop: [0-9]* obligations" /verif/work/seedrun_$id.log || { echo "$id run-failed (no summary line; see work/seedrun_$id.log)"; rm -rf "$scratch"; exit 2; }
-echo "$id violations=$n $(grep '^VIOLATION' /verif/work/seedrun_$id.log | head -3 | sed 's/.*replay=\/verif\/replays\///' | tr '\n' ' ' | cut -c1-300)"
+echo "$id violations=$n $(grep '^VIOLATION' /verif/work/seedrun_$id.log | head -3 | sed 's/.*replay=[^ ]*\///' | tr '\n' ' ' | cut -c1-300)"
 rm -rf "$scratch"
